@@ -158,7 +158,8 @@ func checksWithTagPrefix(prefix string, checks api.HealthChecks) api.HealthCheck
 			continue
 		}
 		for _, t := range c.ServiceTags {
-			if strings.HasPrefix(t, prefix) {
+			// routecmd.build trims a tag before it looks for the prefix
+			if strings.HasPrefix(strings.TrimSpace(t), prefix) {
 				checksWithPrefix = append(checksWithPrefix, c)
 				break
 			}
